@@ -12,7 +12,7 @@ from vp.runner import Sel
 FILES = C09.FILES + ["src/stereomolgraph/periodic_table.py"]
 FUNCTIONS = ["every public mutator and getter of the four graph classes, on ill-formed requests"]
 BOUNDS = {"quick": "universe {0,1,2} + absent id 9; all solver-enumerated pre-states (as C09 quick), 3 flavours; every ill-formed request of the listed kinds "
-                   "and every lookup that mentions the absent id or an absent bond",
+                   "and every lookup that mentions the absent id or an absent bond; requests centred on a bond that was removed under its bond descriptor (set_bond_stereo, set_bond_stereo_change)",
           "thorough": "universe {0,1,2,3} for MG/CRG, all decorations and 8 flavours for SMG/SCRG"}
 OUTSIDE = C09.OUTSIDE
 ASSUMPTIONS = C09.ASSUMPTIONS
@@ -90,11 +90,11 @@ def step3(**kw):
 
 
 def step3t(**kw):
-    return step(k=3, nflav=8, **kw)
+    return step(k=3, nflav=5, **kw)
 
 
 def step4(**kw):
-    return step(k=4, nflav=8, **kw)
+    return step(k=4, nflav=5, **kw)
 
 
 def plan(tier, seed):
